@@ -240,6 +240,39 @@ def match_known(prop, clause, op, known, tr=""):
     return None
 
 
+# ---------------------------------------------------------------- race detector reports
+
+_ACCESS = re.compile(r"^(Write|Read|Previous write|Previous read|Atomic write|Atomic read|Previous atomic write|Previous atomic read) at ")
+
+
+def library_races(text):
+    """Split a Go race-detector log into reports and keep those in which at least one of the two racing accesses is made
+    by library code: walking each access stack from the top, the first frame that belongs to the harness or to the
+    library decides whose access it is (runtime, sync, protobuf ... frames above it are skipped).  A race between two
+    accesses of the harness' own bookkeeping says nothing about the library and is returned separately."""
+    lib, own = [], []
+    for rep in text.split("=================="):
+        if "DATA RACE" not in rep:
+            continue
+        owners, cur = [], None
+        for line in rep.splitlines():
+            if _ACCESS.match(line):
+                cur = len(owners)
+                owners.append(None)
+                continue
+            if line.startswith("Goroutine "):
+                cur = None
+                continue
+            if cur is not None and owners[cur] is None and line.startswith("  ") and not line.startswith("      "):
+                fn = line.strip()
+                if fn.startswith("verifharness/"):
+                    owners[cur] = "harness"
+                elif fn.startswith("github.com/hashicorp/nodeenrollment"):
+                    owners[cur] = "library"
+        (lib if "library" in owners else own).append(rep.strip()[:3000])
+    return lib, own
+
+
 # ---------------------------------------------------------------- evidence
 
 def write_evidence(prop, tier, seed, level, coverage, wall, violations, assumptions):
